@@ -141,6 +141,12 @@ def Param.makeFloating (p : Param V) (ini vmin vmax : Option V) : Except Err (Pa
   | .ok t => .ok (p.applyFloating t)
   | .error e => .error e
 
+/-- probe: would `param.value = x` be accepted? -/
+def Param.accepts (p : Param V) (x : V) : Bool :=
+  match p.setValue x with
+  | .ok _ => true
+  | .error _ => false
+
 end ops
 
 /-! ### ParameterSet -/
@@ -357,6 +363,10 @@ def views (s : PSet V) (q : List String) (g : List V) : Views V :=
     paramsDict := s.floatNames.zip g ++ s.fixedNames.zip s.fixedVals
     floatDict := s.floatNames.zip g }
 
+/-- for every `Parameter` object of the set and every probe value: is the assignment accepted? -/
+def probe [LT V] [DecidableLT V] (s : PSet V) (xs : List V) : List (List Bool) :=
+  s.params.map (fun p => xs.map p.accepts)
+
 end PSet
 
 /-! ### Specification: every view from the bare parameter list -/
@@ -407,6 +417,17 @@ def cell (a : String) : List (Param V) → List (Option String) → Nat → Nat 
       | v :: g' => if r = some a then some (v, (k : Int) + 1) else cell a ps row (j + 1) (k + 1) g'
       | [] => none
   | _, _, _, _, _ => none
+
+/-- specification of the setter: a fixed parameter accepts exactly its (fixed) value, a floating one
+exactly the values inside its bounds -/
+def accepts [LT V] [DecidableLT V] (p : Param V) (x : V) : Bool :=
+  if p.isfixed then !(neV x p.value)
+  else match p.valmin, p.valmax with
+    | some lo, some hi => !(outside x lo hi)
+    | _, _ => false
+
+def probe [LT V] [DecidableLT V] (ps : List (Param V)) (xs : List V) : List (List Bool) :=
+  ps.map (fun p => xs.map (accepts p))
 
 end Spec
 
